@@ -67,7 +67,7 @@ func runC14(c *Ctx) {
 			// the io call must be on the nil edge
 			ok := false
 			for _, iff := range ifsIn(fn) {
-				if ex(iff.Cond) == "("+ex(set[0])+" != nil)" && edgeMustPass(fn, edge{iff.Block(), iff.Block().Succs[1]}, io[0].Block()) {
+				if _, fb, hit := succWhen(iff, "("+ex(set[0])+" != nil)"); hit && edgeMustPass(fn, edge{iff.Block(), fb}, io[0].Block()) {
 					ok = true
 				}
 			}
@@ -144,52 +144,89 @@ func runC14(c *Ctx) {
 			}
 			return false
 		}
+		// reachWithout: is `conn` reachable from the start of block b without passing a delay select?
+		reachWithout := func(b *ssa.BasicBlock) bool {
+			seen := map[*ssa.BasicBlock]bool{b: true}
+			st := []*ssa.BasicBlock{b}
+			for len(st) > 0 {
+				x := st[len(st)-1]
+				st = st[:len(st)-1]
+				stopped := false
+				for _, in := range x.Instrs {
+					if isDelay(in) {
+						stopped = true
+						break
+					}
+					if in == ssa.Instruction(conn) {
+						return true
+					}
+				}
+				if stopped {
+					continue
+				}
+				for _, sc := range x.Succs {
+					if !seen[sc] {
+						seen[sc] = true
+						st = append(st, sc)
+					}
+				}
+			}
+			return false
+		}
 		// first flag
 		var firstIf *ssa.If
+		var later, first *ssa.BasicBlock
 		for _, iff := range ifsIn(fn) {
-			if ex(iff.Cond) == "recv.first" {
-				firstIf = iff
+			if tb, fb, hit := succWhen(iff, "recv.first"); hit {
+				firstIf, later, first = iff, tb, fb
 			}
 		}
 		if firstIf == nil {
 			probs = append(probs, "no `first` test: either the first attempt is delayed or reconnections are not")
 		} else {
-			// true edge (not the first call) must pass a delay before connect
-			tb := firstIf.Block().Succs[0]
-			if _, ok := pathExistsAvoiding(tb.Instrs[0], func(in ssa.Instruction) bool { return in == ssa.Instruction(conn) }, isDelay); ok && !isDelay(tb.Instrs[0]) && !blockHas(tb, isDelay, conn) {
+			if reachWithout(later) {
 				probs = append(probs, "a later call reaches connect() without waiting reconnectPeriod")
 			}
-			// false edge sets first = true
-			set := false
-			for _, in := range firstIf.Block().Succs[1].Instrs {
-				if st, ok := in.(*ssa.Store); ok && ex(st.Addr) == "&recv.first" && ex(st.Val) == "true" {
-					set = true
+			// on the first call the flag is set before connecting
+			isSet := func(in ssa.Instruction) bool {
+				st, ok := in.(*ssa.Store)
+				return ok && ex(st.Addr) == "&recv.first" && ex(st.Val) == "true"
+			}
+			unset := false
+			if len(first.Instrs) > 0 {
+				if isSet(first.Instrs[0]) {
+					unset = false
+				} else if _, ok := pathExistsAvoiding(first.Instrs[0], func(in ssa.Instruction) bool { return in == ssa.Instruction(conn) }, isSet); ok || first.Instrs[0] == ssa.Instruction(conn) {
+					unset = true
 				}
 			}
-			if !set {
+			if unset {
 				probs = append(probs, "the first-call flag is never set: every reconnection happens without delay")
+			}
+			// and the first call itself is not delayed: connect reachable from the first-call edge without a delay
+			if !reachWithout(first) {
+				probs = append(probs, "the very first connection attempt is delayed")
 			}
 		}
 		// after a failed connect
-		var errIf *ssa.If
-		for _, iff := range ifsIn(fn) {
-			if ex(iff.Cond) == "("+ex(conn)+"#1 != nil)" {
-				errIf = iff
+		var connErr ssa.Value
+		for _, rf := range *conn.Referrers() {
+			if e, ok := rf.(*ssa.Extract); ok && e.Index == 1 {
+				connErr = e
 			}
 		}
+		errIf, failed, succeeded := nilGuard(fn, connErr)
 		if errIf == nil {
 			probs = append(probs, "the connect error is not tested")
 		} else {
-			tb := errIf.Block().Succs[0]
-			if !blockHas(tb, isDelay, conn) {
-				if _, ok := pathExistsAvoiding(tb.Instrs[0], func(in ssa.Instruction) bool { return in == ssa.Instruction(conn) }, isDelay); ok {
-					probs = append(probs, "after a failed connection attempt the next attempt is made without waiting reconnectPeriod (busy loop)")
-				}
+			if reachWithout(failed) {
+				probs = append(probs, "after a failed connection attempt the next attempt is made without waiting reconnectPeriod (busy loop)")
 			}
-			if !reachFrom(tb, nil, nil)[conn.Block()] {
+			if !reachFrom(failed, nil, nil)[conn.Block()] {
 				probs = append(probs, "after a failed connection attempt no further attempt is made")
 			}
 		}
+		_ = succeeded
 		// returns
 		for _, ret := range retInstrs(fn) {
 			if len(ret.Results) != 3 {
@@ -201,7 +238,7 @@ func runC14(c *Ctx) {
 				if ex(ret.Results[1]) != ex(conn)+"#0" {
 					probs = append(probs, "success return does not hand out the connection just established")
 				}
-				if errIf != nil && !edgeMustPass(fn, edge{errIf.Block(), errIf.Block().Succs[1]}, ret.Block()) {
+				if errIf != nil && !edgeMustPass(fn, edge{errIf.Block(), succeeded}, ret.Block()) {
 					probs = append(probs, "success return reachable although connect failed")
 				}
 			case e == "gomavlib.errTerminated":
